@@ -11,6 +11,7 @@ import (
 	"mime/multipart"
 	"net/http"
 	"net/url"
+	"sort"
 	"strconv"
 	"strings"
 	"sync"
@@ -25,6 +26,7 @@ type Fault struct {
 	At   int    `json:"at"`
 	Frac int    `json:"frac,omitempty"` // > 0: At is this many per-mille of the wire length measured when the call ran alone
 	Arg  string `json:"arg,omitempty"`
+	Val  string `json:"val,omitempty"`
 }
 
 // Fault kinds:
@@ -42,6 +44,10 @@ type Fault struct {
 //	drop-header the request header named Arg is removed in flight
 //	dup-header  the request header named Arg is duplicated in flight
 //	drop-query  the query parameter named Arg is removed in flight
+//	mangle      an intermediary rewrites one piece of the request head: Arg says which ("query:name", "header:Name",
+//	            "cookie:name", "path:i" = i-th path segment, or by position "query#i", "header#i", "cookie#i"), Val is
+//	            the new text (for query and path: as it goes on the wire, i.e. already escaped - or deliberately not)
+//	dup-query   the query parameter named Arg (or "#i": the i-th) is sent twice
 //	flip        the byte at wire offset At of the request is XORed with 0x20 (unstructured corruption)
 //	append      a re-framing intermediary forwards the request with Arg appended to the body (framing stays valid)
 //	drop-field  a re-framing intermediary loses the form field / multipart part named Arg
@@ -178,6 +184,17 @@ func (t *SimTransport) Do(req *http.Request) (*http.Response, error) {
 		if q.Has(f.Arg) {
 			q.Del(f.Arg)
 			req.URL.RawQuery = q.Encode()
+			ci.Rec.fire()
+		}
+	case "dup-query":
+		pairs := strings.Split(req.URL.RawQuery, "&")
+		if i := pickPair(pairs, f.Arg, "="); i >= 0 {
+			pairs = append(pairs, pairs[i])
+			req.URL.RawQuery = strings.Join(pairs, "&")
+			ci.Rec.fire()
+		}
+	case "mangle":
+		if mangle(req, f.Arg, f.Val) {
 			ci.Rec.fire()
 		}
 	}
@@ -393,6 +410,103 @@ func (t *SimTransport) attempt(req *http.Request, ci *callInfo, name string, att
 			return nil, respErr, false
 		}
 	}
+}
+
+// pickPair finds the pair whose name is sel, or the i-th pair for sel "#i" (modulo the number of pairs).
+func pickPair(pairs []string, sel, sep string) int {
+	if len(pairs) == 0 || (len(pairs) == 1 && pairs[0] == "") {
+		return -1
+	}
+	if strings.HasPrefix(sel, "#") {
+		n, err := strconv.Atoi(sel[1:])
+		if err != nil || n < 0 {
+			return -1
+		}
+		return n % len(pairs)
+	}
+	for i, p := range pairs {
+		k, _, _ := strings.Cut(strings.TrimSpace(p), sep)
+		if uk, err := url.QueryUnescape(k); err == nil && uk == sel {
+			return i
+		}
+	}
+	return -1
+}
+
+// mangle rewrites one piece of the request head in flight. It reports whether the piece existed.
+func mangle(req *http.Request, target, val string) bool {
+	kind, sel := target, ""
+	if i := strings.IndexAny(target, ":#"); i >= 0 {
+		kind, sel = target[:i], target[i:]
+		sel = strings.TrimPrefix(sel, ":")
+	}
+	switch kind {
+	case "query":
+		pairs := strings.Split(req.URL.RawQuery, "&")
+		i := pickPair(pairs, sel, "=")
+		if i < 0 {
+			return false
+		}
+		k, _, _ := strings.Cut(pairs[i], "=")
+		pairs[i] = k + "=" + val
+		req.URL.RawQuery = strings.Join(pairs, "&")
+		return true
+	case "path":
+		n, err := strconv.Atoi(sel)
+		if err != nil {
+			return false
+		}
+		segs := strings.Split(req.URL.EscapedPath(), "/")
+		if len(segs) < 2 {
+			return false
+		}
+		i := 1 + n%(len(segs)-1)
+		segs[i] = val
+		raw := strings.Join(segs, "/")
+		p, err := url.PathUnescape(raw)
+		if err != nil {
+			return false // net/http's server refuses such a request target itself; ogen never sees it
+		}
+		req.URL.Path, req.URL.RawPath = p, raw
+		return true
+	case "header":
+		var names []string
+		for k := range req.Header {
+			switch k {
+			case "Content-Type", "Content-Length", "Cookie", "Host", "Transfer-Encoding", "User-Agent", "Accept-Encoding":
+			default:
+				names = append(names, k)
+			}
+		}
+		sort.Strings(names)
+		name := sel
+		if strings.HasPrefix(sel, "#") {
+			n, err := strconv.Atoi(sel[1:])
+			if err != nil || len(names) == 0 {
+				return false
+			}
+			name = names[n%len(names)]
+		} else if _, ok := req.Header[http.CanonicalHeaderKey(sel)]; !ok {
+			return false
+		}
+		req.Header.Set(name, val)
+		return true
+	case "cookie":
+		c := req.Header.Get("Cookie")
+		if c == "" {
+			return false
+		}
+		pairs := strings.Split(c, ";")
+		i := pickPair(pairs, sel, "=")
+		if i < 0 {
+			return false
+		}
+		k, _, _ := strings.Cut(strings.TrimSpace(pairs[i]), "=")
+		pairs[i] = " " + k + "=" + val
+		req.Header.Set("Cookie", strings.TrimSpace(strings.Join(pairs, ";")))
+		return true
+	}
+	return false
 }
 
 // reframe is a buffering intermediary: it receives the whole request, edits the body and forwards it with
